@@ -54,7 +54,10 @@ func WriteResponse(w io.Writer, o Object) error {
 
 // ReadResponse reads a response from the stream into r.
 func ReadResponse(r io.Reader, o Object) error {
-	return withDecoder(r, (*RPCError)(nil).maxLen()+o.maxLen(), func(d *types.Decoder) {
+	// NOTE: the limit leaves room for the leading error flag, so that an error
+	// as long as an error may be still arrives as that error when the expected
+	// object has no length of its own
+	return withDecoder(r, 1+(*RPCError)(nil).maxLen()+o.maxLen(), func(d *types.Decoder) {
 		if d.ReadBool() {
 			r := new(RPCError)
 			r.decodeFrom(d)
